@@ -239,7 +239,7 @@ def term_eq(a, b):
         return False
 
 
-def fm_refutes(facts, goal, max_rows=400):
+def fm_refutes(facts, goal, max_rows=400, force=False):
     """Fourier-Motzkin over the rationals: True iff {f >= 0 for f in facts} and goal <= -1 have no rational solution (hence no integer one),
     i.e. the facts imply goal >= 0.  Atoms are treated as independent variables (sound: fewer constraints can only make refutation harder)."""
     from fractions import Fraction
@@ -249,6 +249,10 @@ def fm_refutes(facts, goal, max_rows=400):
     pool = [as_lin(f) for f in facts]
     changed = True
     used = set()
+    if force:
+        # plain infeasibility of the facts: every fact takes part, the goal row is dropped below
+        for f in pool:
+            rel |= set(f.m)
     while changed:
         changed = False
         for i, f in enumerate(pool):
@@ -258,16 +262,31 @@ def fm_refutes(facts, goal, max_rows=400):
                 used.add(i)
                 rel |= set(f.m)
                 changed = True
+    seen_rows = set()
     for i in sorted(used):
         f = pool[i]
+        key = f.key()
+        if key in seen_rows:
+            continue        # both spellings of a comparison give the same row
+        seen_rows.add(key)
         rows.append(({a: Fraction(c) for a, c in f.m.items()}, Fraction(f.c)))
+    if force:
+        max_rows = max(max_rows, 6000)
     ng = {a: Fraction(-c) for a, c in goal.m.items()}
-    rows.append((ng, Fraction(-goal.c - 1)))
+    if not force:
+        rows.append((ng, Fraction(-goal.c - 1)))
     for f in pool:
         if f.is_const() and f.c < 0:
             return True
-    vars_ = sorted(rel, key=repr)
-    for v in vars_:
+    left = sorted(rel, key=repr)
+    while left:
+        # eliminate the variable producing the fewest new rows (ties by name: deterministic)
+        def cost(v):
+            p = sum(1 for r in rows if r[0].get(v, 0) > 0)
+            n = sum(1 for r in rows if r[0].get(v, 0) < 0)
+            return p * n - p - n
+        v = min(left, key=lambda x: (cost(x), repr(x)))
+        left.remove(v)
         pos = [r for r in rows if r[0].get(v, 0) > 0]
         negs = [r for r in rows if r[0].get(v, 0) < 0]
         rest = [r for r in rows if r[0].get(v, 0) == 0]
@@ -301,3 +320,36 @@ def fm_refutes(facts, goal, max_rows=400):
             out.append((m, c))
         rows = out
     return any((not m) and c < 0 for m, c in rows)
+
+
+def infeasible(cmp_facts, unsigned=lambda atom: True):
+    """True iff the conjunction of comparison facts ('cmp', op, a, b) has no integer solution that the rational relaxation can exclude (Fourier-Motzkin;
+    `!=` is split into `<` / `>`).  Unknown => False."""
+    rest = sorted((f for f in cmp_facts if f[1] != "Ne"), key=repr)
+    nes, seen = [], set()
+    for f in sorted((f for f in cmp_facts if f[1] == "Ne"), key=repr):
+        try:
+            d = as_lin(sub(f[2], f[3]))
+            k = min(repr(d.key()), repr(as_lin(neg(d)).key()))
+        except Exception:
+            k = repr(f)
+        if k not in seen:           # `a != b` and `b != a` are one fact
+            seen.add(k)
+            nes.append(f)
+    nes = nes[:8]
+
+    def refuted(extra):
+        o = Order(rest + extra, unsigned)
+        ax = []
+        for l in o.ge0:
+            ax.extend(o._axioms(l))
+        return fm_refutes(o.ge0 + ax, const(0), force=True)
+
+    def go(extra, i):
+        if refuted(extra):
+            return True
+        if i == len(nes):
+            return False
+        f = nes[i]
+        return go(extra + [("cmp", "Lt", f[2], f[3])], i + 1) and go(extra + [("cmp", "Gt", f[2], f[3])], i + 1)
+    return go([], 0)
